@@ -282,6 +282,40 @@ def roundtrip(col, item):
         shutil.rmtree(work, ignore_errors=True)
 
 
+def nested(col, fmt):
+    """Two archives with the same base name in different directories, decompressed in nested (simultaneously alive)
+    blocks: each block must see its own bytes, and nothing may be left behind."""
+    import typhon.files.utils as U
+    work = tempfile.mkdtemp(prefix="verif-c12-")
+    try:
+        tmp = os.path.join(work, "tmp")
+        os.mkdir(tmp)
+        paths = []
+        for k, data in enumerate((b"first archive", b"second archive, other bytes")):
+            d = os.path.join(work, "v%d" % k)
+            os.mkdir(d)
+            p = os.path.join(d, "scan.2018.bin." + fmt)
+            stdlib_write(p, fmt, data, "scan.2018.bin")
+            paths.append((p, data))
+        rep = {"abstract": {"mode": "two decompress blocks alive at once", "same_base_name": True}, "concrete": {"format": fmt}}
+        try:
+            with U.decompress(paths[0][0], tmpdir=tmp) as a:
+                with U.decompress(paths[1][0], tmpdir=tmp) as b:
+                    got_b = open(b, "rb").read()
+                    got_a_inner = open(a, "rb").read()
+                got_a = open(a, "rb").read()
+            col.count(1)
+            if got_a != paths[0][1] or got_b != paths[1][1] or got_a_inner != paths[0][1]:
+                col.violation("nested-decompress-wrong-bytes", dict(rep, observed=[got_a_inner[:20].decode("latin1"), got_b[:20].decode("latin1")]))
+        except Exception as ex:
+            col.violation("nested-decompress-raises-" + type(ex).__name__, dict(rep, observed=repr(ex)[:200]))
+        if os.listdir(tmp):
+            col.violation("debris-nested-decompress", dict(rep, observed=os.listdir(tmp)))
+        col.nontrivial.add(("nested", fmt))
+    finally:
+        shutil.rmtree(work, ignore_errors=True)
+
+
 def run(ctx):
     ctx.rule = ("TLC explores CompressDesign (one action per step of compress/decompress, a failing twin per I/O step, "
                 "known/unknown suffix, absent/existing target) and prints every terminal state; each is replayed for 4 "
@@ -312,5 +346,6 @@ def run(ctx):
                     items.append((c, fmt, cname, naming, seq))
     pmap(ctx, replay, items)
     pmap(ctx, roundtrip, [(f, c, n) for f in FORMATS for c in CONTENTS for n in ("plain", "dots", "suffixchars")])
+    pmap(ctx, nested, FORMATS, procs=1)
     ctx.traces += len(items)
     ctx.sample({"terminal_state": cases[3], "replayed_as": {"format": "gz", "content": "chunks", "naming": "dots"}})
